@@ -3,6 +3,7 @@ import SctpVerif.Spec.ShiftSpec
 import SctpVerif.Spec.PolicySpec
 import SctpVerif.Model.Sender
 import SctpVerif.Driver.Util
+import SctpVerif.Driver.Rack
 /-!
 Line protocol for the direct-drive sender harness (`as …`).
 
@@ -14,6 +15,9 @@ predicates of `Spec/SenderSpec` (P_C10 / P_C15), which look at the implementatio
 has an oracle: `sel` (indices, in the harness' shadow of the pending queue, of the chunks `peek()` returned),
 `tlr`/`bud` (burst budget state when the gather started), `rtx` (TSNs flagged for retransmission after the op:
 RACK/PTO marks), `t3` (T3 expiries while the clock advanced).
+
+`as rk` / `as rke` lines (white-box RACK / PTO / TLR snapshots) are replayed through `Model/Rack.lean` by
+`Driver/Rack.lean`, which derives that model's inputs from the sender model's transition of the preceding op.
 -/
 namespace Drv.Assoc
 open Drv SenderSpec
@@ -58,6 +62,7 @@ structure St where
   ora : List String := []
   sh : ShiftSpec.St := {}
   pol : PolSt := {}
+  rk : RackD.St := {}                  -- RACK / PTO / TLR model (Driver/Rack.lean)
   deriving Inhabited
 
 def oraKey (ora : List String) (k : String) : Option String :=
@@ -204,10 +209,25 @@ def specStep (st : SenderSpec.St) (op impl : List String) : SenderSpec.St × Lis
   | _ => ({ st with pendingCheck := some ("op", op ++ ["->"] ++ impl) }, [])
 
 def step (st : St) (op impl : List String) : St × Option String × List String :=
-  let (sp, v) := specStep st.spec op impl
-  let (sh, e) := ShiftSpec.step st.sh op impl
-  let (pol, pv) := polStep st.pol op impl
-  let (st', r) := modelStep { st with spec := sp, sh := sh, pol := pol } op impl
-  (st', r, v ++ e.toList ++ pv)
+  match op with
+  | ["rk"] =>
+    let (sh, e) := ShiftSpec.step st.sh op impl
+    let (rk, r) := RackD.onRk st.rk st.m impl
+    ({ st with sh := sh, rk := rk }, some r, e.toList)
+  | "rke" :: _ =>
+    let (sh, e) := ShiftSpec.step st.sh op impl
+    let (rk, r) := RackD.onRke st.rk st.m op impl
+    ({ st with sh := sh, rk := rk }, some r, e.toList)
+  | _ =>
+    let (sp, v) := specStep st.spec op impl
+    let (sh, e) := ShiftSpec.step st.sh op impl
+    let (pol, pv) := polStep st.pol op impl
+    let (st', r) := modelStep { st with spec := sp, sh := sh, pol := pol } op impl
+    -- the op's effect on RACK / PTO / TLR is replayed when its `rk` line arrives
+    let st' := match op with
+      | "st" :: _ => st'
+      | "ora" :: _ => st'
+      | _ => { st' with rk := { st'.rk with pend := some { op := op, ora := st.ora, mPre := st.m } } }
+    (st', r, v ++ e.toList ++ pv)
 
 end Drv.Assoc
